@@ -1,6 +1,7 @@
 mod codec;
 mod j;
 mod util;
+mod vsign;
 
 use util::parse_args;
 
@@ -18,6 +19,12 @@ fn main() {
         ("record", "C03") => codec::record_c03(&a),
         ("record", "C04") => codec::record_c04(&a),
         ("record", "C05") => codec::record_c05(&a),
+        ("record", "C12") => vsign::record_c12(&a),
+        ("record", "C13") => vsign::record_c13(&a),
+        ("record", "C14") => vsign::record_c14(&a),
+        ("replay", "C13") => { vsign::replay_graph(&a.rest[0], false); 0 }
+        ("replay", "C12") => { vsign::replay_graph(&a.rest[0], true); 0 }
+        ("replay", "C14") => { vsign::replay_bus_graph(&a.rest[0]); 0 }
         ("replay", "C01") => { codec::replay_c01(&a.rest[0]); 0 }
         ("replay", "C03") => { codec::replay_c03(&a.rest[0]); 0 }
         ("replay", "C04") => { codec::replay_c04(&a.rest[0]); 0 }
